@@ -90,7 +90,7 @@ package forwarder
 //@ pure
 //@ ensures code == 0 || code == 500
 
-//@ pure forwarder.tlsRecordHeaderLooksLikeHTTP forwarder.describeCertificates forwarder.errno http.StatusText
+//@ pure forwarder.tlsRecordHeaderLooksLikeHTTP forwarder.describeCertificates forwarder.errno
 
 // Connection failures: 504 for a timed-out operation, 502 otherwise.
 //@ func handleNetError
